@@ -10,6 +10,7 @@ use crate::{
     codec::*,
     core::{
         base_types::NonZero,
+        error::{CodecError, InvalidPacketHeader},
         properties::ReceiveMaximum,
         utils::{ByteLen, Encode, PacketID, SizedPacket},
     },
@@ -282,6 +283,10 @@ where
 
                 return Err(disconnect.into());
             }
+            // CONNACK and AUTH are only expected while connecting, receiving them here is a protocol violation by the peer.
+            RxPacket::Connack(_) | RxPacket::Auth(_) => {
+                return Err(CodecError::from(InvalidPacketHeader).into());
+            }
             RxPacket::Puback(puback) => {
                 let rx_packet = RxPacket::Puback(puback);
                 let action_id = utils::rx_action_id(&rx_packet);
@@ -529,9 +534,8 @@ where
                 Ok(Left(ConnectRsp::try_from(connack)?))
             }
             RxPacket::Auth(auth) => Ok(Right(AuthRsp::try_from(auth)?)),
-            _ => {
-                unreachable!("Unexpected packet type.");
-            }
+            // Only CONNACK or AUTH may answer CONNECT/AUTH, anything else is a protocol violation by the peer.
+            _ => Err(CodecError::from(InvalidPacketHeader).into()),
         }
     }
 
@@ -577,9 +581,8 @@ where
                 Ok(Left(ConnectRsp::try_from(connack)?))
             }
             RxPacket::Auth(auth) => Ok(Right(AuthRsp::try_from(auth)?)),
-            _ => {
-                unreachable!("Unexpected packet type.");
-            }
+            // Only CONNACK or AUTH may answer CONNECT/AUTH, anything else is a protocol violation by the peer.
+            _ => Err(CodecError::from(InvalidPacketHeader).into()),
         }
     }
 
